@@ -320,11 +320,19 @@ func c04(c *ctx) {
 	}
 	// --- the session's own per-frame maximum in the session's own send buffer, many padding draws: the message
 	// must be produced and must not exceed the session's limit (monitor only; the bytes are not sent to the driver) ---
-	if sess, err := mux.VerifMakeSession(0, [32]byte{}, c4limit, false); err == nil {
-		maxUnit, sendBuf, limit := sess.MaxUnit(), sess.SendBuf(), sess.Limit()
+	for ci, configured := range []int{c4limit, 16640, 4096, 1500} {
+		sess, err := mux.VerifMakeSession(0, [32]byte{}, configured, false)
+		if err != nil {
+			continue
+		}
+		// the limit that counts is the one that was CONFIGURED, not what the session says it made of it
+		maxUnit, sendBuf, limit := sess.MaxUnit(), sess.SendBuf(), configured
 		nd := 1500
 		if c.thorough() {
 			nd = 8000
+		}
+		if ci > 0 {
+			nd /= 5
 		}
 		for m := 0; m <= 3; m++ {
 			key := c4key(r)
@@ -356,7 +364,7 @@ func c04(c *ctx) {
 				o.stat("max_payload_draws", 1)
 			}
 		}
-		o.case_("max-payload draws", true)
+		o.case_(fmt.Sprintf("max-payload draws limit=%d", configured), true)
 	}
 	// --- reference-encoded messages with chosen padding, decoded by the real decoder ---
 	nref := 40
